@@ -495,6 +495,27 @@ pub fn mutate(rng: &mut Rng, text: &str) -> (String, &'static str) {
             }
         };
     }
+    // widths are capped so that memory exhaustion is not mistaken for a crash
+    for l in lines.iter_mut() {
+        let toks: Vec<&str> = l.split([' ', '\t']).filter(|t| !t.is_empty()).collect();
+        let mut fix: Option<usize> = None;
+        if toks.len() >= 4 && toks[1] == "sort" && toks[2] == "bitvec" {
+            fix = Some(3);
+        } else if toks.len() >= 5 && (toks[1] == "uext" || toks[1] == "sext") {
+            fix = Some(4);
+        }
+        if let Some(k) = fix {
+            let too_big = match toks[k].parse::<u64>() {
+                Ok(n) => n > 65536,
+                Err(_) => toks[k].len() > 5 && toks[k].chars().all(|c| c.is_ascii_digit()),
+            };
+            if too_big {
+                let mut t: Vec<String> = toks.iter().map(|x| x.to_string()).collect();
+                t[k] = "65536".into();
+                *l = t.join(" ");
+            }
+        }
+    }
     (lines.join("\n") + "\n", label)
 }
 
